@@ -1118,9 +1118,7 @@ pub trait QueryBuilder:
             Value::Float(Some(v)) => write!(s, "{v}").unwrap(),
             Value::Double(Some(v)) => write!(s, "{v}").unwrap(),
             Value::String(Some(v)) => self.write_string_quoted(v, &mut s),
-            Value::Char(Some(v)) => {
-                self.write_string_quoted(std::str::from_utf8(&[*v as u8]).unwrap(), &mut s)
-            }
+            Value::Char(Some(v)) => self.write_string_quoted(&v.to_string(), &mut s),
             Value::Bytes(Some(v)) => self.write_bytes(v, &mut s),
             #[cfg(feature = "with-json")]
             Value::Json(Some(v)) => self.write_string_quoted(&v.to_string(), &mut s),
